@@ -161,6 +161,16 @@ func GenProg(r *rand.Rand, cfg Cfg) *Prog {
 	return p
 }
 
+// AltProg draws another spec over the same declarations: its sentences are near-misses for the original spec
+func AltProg(r *rand.Rand, p *Prog, cfg Cfg) *Prog {
+	cfg = cfg.norm()
+	q := &Prog{Opts: p.Opts, Args: p.Args}
+	g := &specGen{r: r, p: q, allowDD: cfg.AllowDD, repIn: cfg.RepOneIn, heavy: cfg.OptHeavy}
+	q.AST = g.seq(cfg.Depth, true)
+	q.Spec = q.AST.String()
+	return q
+}
+
 // ImplicitProg returns the program with the spec a spec-less command must behave like: [OPTIONS] ARG1 ARG2 ...
 func ImplicitProg(p *Prog) *Prog {
 	if p.Spec != "" {
